@@ -112,4 +112,4 @@ let run (input : Sexp.t) (impl : Sexp.t) : Verdict.t =
     nontrivial = reads > 0 && (drops > 0 || replays > 0);
     cls = Printf.sprintf "max%d_drops%s_reads%s_replay%s%s" (int_of_nat max) (if drops = 0 then "0" else "some")
         (if reads = 0 then "0" else "some") (if replays = 0 then "0" else "some") (if panics then "_panic" else "");
-    model = Sexp.L (List.map sx_oout mouts) }
+    model = Sexp.L (List.map sx_oout mouts); why = "" }
